@@ -93,6 +93,19 @@ def parsed_col(t):
     return None
 
 
+def strip_destroy(t):
+    """remove sort / unique / set wrappers around a target list -> (inner term, whether anything was removed)"""
+    destroyed = False
+    while isinstance(t, tuple) and t:
+        if t[0] == "ext" and t[1] in api.ORDER_DESTROY and t[2]:
+            destroyed, t = True, t[2][0]
+        elif t[0] == "method" and t[2] == "astype" and isinstance(t[1], tuple) and t[1][0] == "ext" and t[1][1] in api.ORDER_DESTROY and t[1][2]:
+            destroyed, t = True, ("method", t[1][2][0], "astype", t[3], t[4])
+        else:
+            break
+    return t, destroyed
+
+
 class Cases:
     """abstract evaluation of the final means / variances / W terms for one target under facts"""
 
@@ -143,6 +156,13 @@ class Cases:
             _, b, idx, val, aug = t
             below = self.ev(b, base_tag)
             tgt = parsed_col(idx)
+            if tgt is None:
+                # targets passed through an order-destroying operation while the parameter columns keep dict order
+                u, destroyed = strip_destroy(idx)
+                t2 = parsed_col(u) if destroyed else None
+                if t2 is not None:
+                    self.problems.append("the target list is sorted / de-duplicated (%s) while the parameter columns stay in dict order: with several targets the parameters are permuted among them" % fmt(idx)[:60])
+                    tgt = t2
             if tgt is None or tgt[1] != 0 or not tgt[2]:
                 raise Inconclusive("store index is not the integer target column of a parsed intervention: %s" % fmt(idx)[:80])
             src = parsed_col(val)
@@ -174,6 +194,7 @@ class Cases:
             if not (idx[0] == "tuple" and len(idx[1]) == 2):
                 raise Inconclusive("W store with an unrecognised index %s" % fmt(idx)[:60])
             r, c = idx[1]
+            r, c = strip_destroy(r)[0], strip_destroy(c)[0]       # which columns are cut does not depend on their order
             if not is_const(val, 0) or aug is not None:
                 raise Inconclusive("W store of a non-zero value")
             if r == FULL and parsed_col(c) and parsed_col(c)[1] == 0:
@@ -342,18 +363,23 @@ def run(prog, rep, tier):
                 o = (cm.ev(mt, "M0"), cm.ev(vt, "V0"), cm.ev_W(Wt))
             except Inconclusive as e:
                 rep.unk("CASES.lganm", fwhere(f), "outcome table left the recognised update idioms: %s" % e.why)
-                return
+                bad = None
+                break
             n_eval += 1
             outs.add(o)
             for pmsg in cm.problems:
                 bad.append((d, s, z, pmsg))
+        if bad is None:
+            break
         exp = oracle(d, s, z)
         table["do=%d shift=%d noise=%d" % (d, s, z)] = [list(map(str, o)) for o in sorted(outs, key=str)]
         if outs != {exp}:
             bad.append((d, s, z, "outcome %s, expected %s" % (sorted(outs, key=str), exp)))
     rep.tables["lganm_outcomes"] = table
     rep.analysed["cases.valuations"] = n_eval
-    if bad:
+    if bad is None:
+        pass
+    elif bad:
         d, s, z, msg = bad[0]
         rep.bad("CASES.lganm", fwhere(f), "target with do=%s shift=%s noise=%s: %s" % (d, s, z, msg), detail=[str(b) for b in bad])
     else:
